@@ -22,21 +22,29 @@ import gpytorch
 from gpytorch import settings as gs
 from harness.lib import common as C
 
-COQ_TARGETS = ["Models/C02_mll.vo"]
+COQ_TARGETS = ["Models/C02_mll.vo", "Models/C02_priors.vo"]
 LEVEL_NOTE = ("theorems are about the Gallina model; tie to /repo is differential (public outputs, float64 vs exact "
               "rationals + mpmath, tolerances in coverage.tolerances); gradients are tested, not proved")
 IMPORTS = ("From Coq Require Import List ZArith QArith Qcanon.\n"
-           "From GPV Require Import Base.LinAlg Base.Exec Base.Expr Models.C02_mll.")
+           "From GPV Require Import Base.LinAlg Base.Exec Base.Expr Models.C02_mll Models.C02_priors.")
 RUN_DEF = ("Inductive ccase := CM (c : mll_case) | CL (c : nat * list (list Qc) * list Qc * list (list Qc) * list Qc * list Qc * list Qc)"
-           " | CS (c : list mll_case).\n"
-           "Definition run (c : ccase) : list Z := match c with CM x => run_mll x | CL x => run_loo x | CS x => run_summll x end.")
+           " | CS (c : list mll_case) | CMB (c : mll_case) (bp : list bprior) (idx : list nat)"
+           " | CLB (c : nat * list (list Qc) * list Qc * list (list Qc) * list Qc * list Qc * list Qc) (bp : list bprior) (idx : list nat)"
+           " | CN (t : mtree).\n"
+           "Definition run (c : ccase) : list Z := match c with CM x => run_mll x | CL x => run_loo x | CS x => run_summll x"
+           " | CMB x bp idx => run_mll_b x bp idx | CLB x bp idx => run_loo_b x bp idx | CN t => run_named t end.")
 
 torch.set_default_dtype(torch.float64)
 mp.mp.dps = 40
 TOL = 1e-8
 GRAD_RTOL, GRAD_ATOL, GRAD_H = 1e-5, 1e-7, 1e-4
 
-KERNELS = ["rbf", "matern05", "matern15", "matern25", "rq", "scale_rbf", "rbf+linear", "ard_rbf", "poly", "scale_matern"]
+KERNELS = ["rbf", "matern05", "matern15", "matern25", "rq", "scale_rbf", "rbf+linear", "ard_rbf", "poly", "scale_matern",
+           "ard_matern", "scale_ard_rbf", "scale_rbf+scale_matern", "rbf*matern15"]
+# kernels made of two components of the same kind: both components own a lengthscale (and an outputscale), so priors
+# registered under the constructor's names (lengthscale_prior, ...) collide by NAME but belong to different modules
+TWO_COMPONENT = ["scale_rbf+scale_matern", "rbf*matern15"]
+NAMINGS = ["unique", "canonical", "same"]
 MEANS = ["zero", "constant", "linear"]
 LIKS = ["gaussian", "fixed", "fixed+learned"]
 PRIOR_KINDS = ["gamma", "lognormal", "normal", "smoothedbox"]
@@ -174,9 +182,22 @@ def make_kernel(name, d, rng, bs=()):
         a = k.RBFKernel(batch_shape=B); a.lengthscale = ls()
         b = k.LinearKernel(batch_shape=B); b.variance = _bt(rng, 0.2, 2, bs, (1, 1) if bs else ())
         m = a + b
-    elif name == "ard_rbf":
-        m = k.RBFKernel(ard_num_dims=d, batch_shape=B)
+    elif name in ("ard_rbf", "ard_matern"):
+        m = k.RBFKernel(ard_num_dims=d, batch_shape=B) if name == "ard_rbf" else k.MaternKernel(nu=1.5, ard_num_dims=d, batch_shape=B)
         m.lengthscale = _bt(rng, 0.4, 2.0, bs, (1, d))
+    elif name == "scale_ard_rbf":
+        base = k.RBFKernel(ard_num_dims=d, batch_shape=B); base.lengthscale = _bt(rng, 0.4, 2.0, bs, (1, d))
+        m = k.ScaleKernel(base, batch_shape=B); m.outputscale = _bt(rng, 0.3, 3, bs)
+    elif name == "scale_rbf+scale_matern":
+        a = k.ScaleKernel(k.RBFKernel(batch_shape=B), batch_shape=B)
+        b = k.ScaleKernel(k.MaternKernel(nu=2.5, batch_shape=B), batch_shape=B)
+        a.base_kernel.lengthscale = ls(); a.outputscale = _bt(rng, 0.3, 2, bs)
+        b.base_kernel.lengthscale = ls(); b.outputscale = _bt(rng, 0.3, 2, bs)
+        m = a + b
+    elif name == "rbf*matern15":
+        a = k.RBFKernel(batch_shape=B); a.lengthscale = ls()
+        b = k.MaternKernel(nu=1.5, batch_shape=B); b.lengthscale = ls()
+        m = a * b
     elif name == "poly":
         m = k.PolynomialKernel(power=2, batch_shape=B); m.offset = _bt(rng, 0.2, 2, bs, (1,) if bs else ())
     return m
@@ -212,71 +233,163 @@ def make_lik(name, n, rng, bs=(), full=()):
 
 
 def prior_targets(model, lik, case):
-    """name -> (module, attribute) of every constrained parameter that can carry a prior in this case"""
+    """name -> (module, attribute, component) of every constrained parameter that can carry a prior in this case;
+    component in kernel / mean / lik names the batch shape the owning module was built with"""
     t = {}
     kern = model.covar_module
     if isinstance(kern, DyadicKernel):
         kern = kern.base_kernel
     kn = case["kernel"]
-    if kn in ("rbf", "matern05", "matern15", "matern25", "rq", "ard_rbf"):
-        t["lengthscale"] = (kern, "lengthscale")
-    if kn in ("scale_rbf", "scale_matern"):
-        t["lengthscale"] = (kern.base_kernel, "lengthscale")
-        t["outputscale"] = (kern, "outputscale")
+    if kn in ("rbf", "matern05", "matern15", "matern25", "rq", "ard_rbf", "ard_matern"):
+        t["lengthscale"] = (kern, "lengthscale", "kernel")
+    if kn in ("scale_rbf", "scale_matern", "scale_ard_rbf"):
+        t["lengthscale"] = (kern.base_kernel, "lengthscale", "kernel")
+        t["outputscale"] = (kern, "outputscale", "kernel")
     if kn == "rbf+linear":
-        t["lengthscale"] = (kern.kernels[0], "lengthscale")
-        t["variance"] = (kern.kernels[1], "variance")
+        t["lengthscale"] = (kern.kernels[0], "lengthscale", "kernel")
+        t["variance"] = (kern.kernels[1], "variance", "kernel")
+    if kn == "scale_rbf+scale_matern":
+        t["lengthscale"] = (kern.kernels[0].base_kernel, "lengthscale", "kernel")
+        t["outputscale"] = (kern.kernels[0], "outputscale", "kernel")
+        t["lengthscale2"] = (kern.kernels[1].base_kernel, "lengthscale", "kernel")
+        t["outputscale2"] = (kern.kernels[1], "outputscale", "kernel")
+    if kn == "rbf*matern15":
+        t["lengthscale"] = (kern.kernels[0], "lengthscale", "kernel")
+        t["lengthscale2"] = (kern.kernels[1], "lengthscale", "kernel")
     if kn == "rq":
-        t["alpha"] = (kern, "alpha")
+        t["alpha"] = (kern, "alpha", "kernel")
     if kn == "poly":
-        t["offset"] = (kern, "offset")
+        t["offset"] = (kern, "offset", "kernel")
     if case["lik"] == "gaussian":
-        t["noise"] = (lik.noise_covar, "noise")
+        t["noise"] = (lik.noise_covar, "noise", "lik")
     if case["lik"] == "fixed+learned":
-        t["second_noise"] = (lik.second_noise_covar, "noise")
+        t["second_noise"] = (lik.second_noise_covar, "noise", "lik")
     if case["mean"] == "constant":
-        t["constant"] = (model.mean_module, "constant")
+        t["constant"] = (model.mean_module, "constant", "mean")
     return t
 
 
+COMPONENT = dict(noise="lik", second_noise="lik", constant="mean")
+
+
+def prior_component(case, p):
+    return COMPONENT.get(p["target"], "kernel")
+
+
 def attach_priors(model, lik, case):
+    """register the case's priors.  Registration NAMES (case["naming"]): `unique` = a fresh name per prior, `canonical` =
+    the name gpytorch's constructors use (<parameter>_prior, so two kernels of the same kind collide by name), `same` =
+    one common name for every prior of the model (a second prior on the same module falls back to a fresh name, since
+    names are unique per module).  A prior entry with share_with=j registers the very prior OBJECT of entry j."""
     tg = prior_targets(model, lik, case)
+    used, objs = {}, {}
+    model._verif_regs = []          # what the harness registered: (module, registration name, prior object)
     for i, p in enumerate(case.get("priors", [])):
         if p["target"] not in tg:
             continue
-        mod, attr = tg[p["target"]]
+        mod, attr, _ = tg[p["target"]]
         f = CLOSURE_T[p["closure"]]
+        name = {"unique": "verif_prior_%d" % i, "canonical": attr + "_prior", "same": "prior"}[case.get("naming", "unique")]
+        if name in used.setdefault(id(mod), set()):
+            name = "verif_prior_%d" % i
+        used[id(mod)].add(name)
+        obj = objs[p["share_with"]] if p.get("share_with") in objs else make_prior(p["spec"])
+        objs[i] = obj
+        model._verif_regs.append((mod, name, obj))
         if p["closure"] == "id" and p.get("by_name"):
-            mod.register_prior("verif_prior_%d" % i, make_prior(p["spec"]), attr)
+            mod.register_prior(name, obj, attr)
         else:
-            mod.register_prior("verif_prior_%d" % i, make_prior(p["spec"]),
-                               (lambda a, g: (lambda m: g(getattr(m, a))))(attr, f))
+            mod.register_prior(name, obj, (lambda a, g: (lambda m: g(getattr(m, a))))(attr, f))
 
 
 def expected_priors(model, lik, case, nb):
     """per batch element: list of expected log-prior values (mpmath), from the constrained values.
     Batch semantics: a module with batch shape P broadcasts against the full batch shape F from the right
     (torch broadcasting), so element idx of F is governed by the parameter element idx[-len(P):] (size-1 dims -> 0);
-    every parameter has shape P + (non-batch dims), all of whose entries belong to that element."""
+    every parameter has shape P + (non-batch dims), all of whose entries belong to that element.  P is the batch shape
+    the owning component (kernel / mean / likelihood) was BUILT with (case["_shapes"]), () for a non-batch module: then
+    every entry of the parameter (e.g. all ARD lengthscales) counts for every batch element."""
     tg = prior_targets(model, lik, case)
     res = [[] for _ in range(nb)]
     F = tuple(case.get("_bshape", ()))
-    P = tuple(case.get("_pshape", ()))
+    shapes = case.get("_shapes", {})
     for p in case.get("priors", []):
         if p["target"] not in tg:
             continue
-        mod, attr = tg[p["target"]]
+        mod, attr, comp = tg[p["target"]]
+        P = tuple(shapes.get(comp, ()))
         v = getattr(mod, attr).detach()
         fm = CLOSURE_M[p["closure"]]
+        memo = {}
         for b in range(nb):
             idx, rem = [], b
             for s_ in reversed(F):
                 idx.append(rem % s_); rem //= s_
             idx = list(reversed(idx))
             pidx = tuple((i if s_ > 1 else 0) for i, s_ in zip(idx[len(F) - len(P):], P)) if P else ()
-            elems = v[pidx].reshape(-1).tolist() if P else v.reshape(-1).tolist()
-            res[b].append(sum((prior_logpdf(p["spec"], fm(mp.mpf(e))) for e in elems), mp.mpf(0)))
+            if pidx not in memo:
+                elems = v[pidx].reshape(-1).tolist() if P else v.reshape(-1).tolist()
+                memo[pidx] = sum((prior_logpdf(p["spec"], fm(mp.mpf(e))) for e in elems), mp.mpf(0))
+            res[b].append(memo[pidx])
     return res
+
+
+def slot_priors(model, lik, case):
+    """every prior term as the model's `bprior`: (batch shape P the owning component was built with, entries per
+    batch element, per-entry log densities in row-major order over the parameter's shape P + tail); which entries count
+    for which batch element of the objective is decided by the Coq model (Models/C02_priors.v: slot_sum)"""
+    tg = prior_targets(model, lik, case)
+    shapes = case.get("_shapes", {})
+    out = []
+    for p in case.get("priors", []):
+        if p["target"] not in tg:
+            continue
+        mod, attr, comp = tg[p["target"]]
+        P = tuple(shapes.get(comp, ()))
+        v = getattr(mod, attr).detach()
+        fm = CLOSURE_M[p["closure"]]
+        vals = [float(prior_logpdf(p["spec"], fm(mp.mpf(e)))) for e in v.reshape(-1).tolist()]
+        out.append((P, len(vals) // max(1, int(torch.Size(P).numel())), vals))
+    return out
+
+
+def nat_list(l):
+    return "[" + "; ".join("%d%%nat" % i for i in l) + "]" if len(l) else "(@nil nat)"
+
+
+def slot_term(bps):
+    return "[" + "; ".join("(%s, %d%%nat, %s)" % (nat_list(P), t, C.qc_vec(v)) for P, t, v in bps) + "]" if bps else "(@nil bprior)"
+
+
+def unravel(b, F):
+    idx, rem = [], b
+    for s_ in reversed(F):
+        idx.append(rem % s_); rem //= s_
+    return list(reversed(idx))
+
+
+def module_tree(model):
+    """the model as the Coq model's `mtree`: structure from named_children (public torch API), the priors of a module
+    from the harness' own registration record.  -> (Coq term, {python id -> module number}, {name -> number},
+    {python id of prior -> number})"""
+    ids, names, pids, by_mod = {}, {}, {}, {}
+    for mod, name, pr in getattr(model, "_verif_regs", []):
+        by_mod.setdefault(id(mod), []).append((names.setdefault(name, len(names)), pids.setdefault(id(pr), len(pids))))
+
+    def walk(mod):
+        me = ids.setdefault(id(mod), len(ids))
+        ps = "; ".join("(%d%%nat, %d%%nat)" % q for q in by_mod.get(id(mod), []))
+        ch = "; ".join(walk(c) for _, c in mod.named_children())
+        return "(MNode %d%%nat [%s] [%s])" % (me, ps, ch)
+    return walk(model), ids, names, pids
+
+
+def impl_named_priors(model, ids, names, pids):
+    """model.named_priors() as sorted (module number, name number, prior number) triples (-1 = not a registered one)"""
+    out = []
+    for full, mod, pr, _closure, _ in model.named_priors():
+        out.append((ids.get(id(mod), -1), names.get(full.rsplit(".", 1)[-1], -1), pids.get(id(pr), -1)))
+    return sorted(out)
 
 
 # --------------------------------------------------------------------------- case generation
@@ -294,11 +407,12 @@ def gen_priors(rng, p_any=0.75):
     out = []
     if rng.random() > p_any:
         return out
-    for target in ("lengthscale", "outputscale", "noise", "constant", "variance", "alpha", "offset", "second_noise"):
+    for target in ("lengthscale", "outputscale", "noise", "constant", "variance", "alpha", "offset", "second_noise",
+                   "lengthscale2", "outputscale2"):
         if rng.random() < 0.55:
             spec = gen_prior(rng)
             closure = rng.choice(CLOSURES)
-            if target in ("outputscale", "constant") and spec["kind"] == "smoothedbox":
+            if target in ("outputscale", "outputscale2", "constant") and spec["kind"] == "smoothedbox":
                 # SmoothedBoxPrior is a multivariate prior over the LAST dimension (it sums over it); outputscale and the
                 # mean constant have shape batch_shape, so their last dimension would be a batch dimension
                 spec = dict(kind="gamma", a=rng.randint(8, 32) / 8.0, b=rng.randint(4, 32) / 8.0)
@@ -317,18 +431,62 @@ def gen_priors(rng, p_any=0.75):
     return out
 
 
-def gen_case(rng, tier, family):
+def _sub_shape(rng, F):
+    """a batch shape that broadcasts (from the right) against F: a suffix of F with dims replaced by 1 at random"""
+    k = rng.randint(0, len(F))
+    return tuple(1 if rng.random() < 0.25 else s_ for s_ in F[len(F) - k:])
+
+
+BATCH_REGIMES = ["same", "independent", "nonbatch-kernel", "independent", "nonbatch-lik+mean"]
+
+
+def gen_case(rng, tier, family, regime=None):
     n = rng.choice([1, 2, 2, 3, 3, 3, 4, 4, 5] if tier == "quick" else [1, 2, 3, 3, 4, 4, 5, 5, 6, 7])
     d = rng.randint(1, 3)
     c = dict(family=family, n=n, d=d, kernel=rng.choice(KERNELS), mean=rng.choice(MEANS), lik=rng.choice(LIKS),
              hseed=rng.randint(0, 10 ** 9), priors=gen_priors(rng),
              added=[dict(where=rng.choice(["model", "kernel"]), value=rng.randint(-40, 40) / 16.0)
                     for _ in range(rng.choice([0, 0, 1, 2]))],
-             fast_log_prob=rng.random() < 0.7)
+             fast_log_prob=rng.random() < 0.7, naming=rng.choice(NAMINGS))
     if family == "batch":
-        c.update(n=rng.randint(1, 4), pattern=rng.choice(["params+data", "params-only", "data-only", "params(2,1)xdata(3)", "params(2)xdata(2,2)"]),
-                 kernel=rng.choice(["rbf", "matern15", "rq", "scale_rbf"]), mean=rng.choice(["zero", "constant"]),
-                 lik=rng.choice(["gaussian", "fixed"]))
+        # every component (kernel, mean, likelihood) and the data get their OWN batch shape: a right-aligned sub-shape of
+        # a full shape F (a suffix of F, dims replaced by 1 at random; () = a non-batch module shared by all elements)
+        F = rng.choice([(2,), (3,), (2, 2), (2, 3), (3, 2), (2, 1, 2)] if tier == "quick" else
+                       [(2,), (3,), (2, 2), (2, 3), (3, 2), (2, 1, 2), (2, 2, 2), (4,), (3, 3)])
+        regime = regime or rng.choice(BATCH_REGIMES)
+        if regime.startswith("nonbatch"):
+            F = rng.choice([f for f in [(2, 2), (2, 3), (3, 2), (2, 1, 2), (2, 2, 2), (3, 3)] if tier != "quick" or f not in [(2, 2, 2), (3, 3)]])
+        sub = lambda: _sub_shape(rng, F)  # noqa: E731
+        if regime == "same":
+            P = rng.choice([F, F, sub()])
+            shapes = dict(kernel=P, mean=P, lik=P, data=rng.choice([F, (), sub()]))
+        elif regime == "independent":
+            shapes = dict(kernel=sub(), mean=sub(), lik=sub(), data=sub())
+        elif regime == "nonbatch-kernel":
+            shapes = dict(kernel=(), mean=sub(), lik=sub(), data=sub())
+            shapes[rng.choice(["mean", "lik", "data"])] = F
+        else:
+            shapes = dict(kernel=sub(), mean=(), lik=(), data=sub())
+            shapes[rng.choice(["kernel", "data"])] = F
+        if rng.random() < 0.5:      # the targets carry the full shape (otherwise: whatever the components broadcast to)
+            shapes["y"] = F
+        c.update(n=rng.randint(1, 3), shapes={k: list(v) for k, v in shapes.items()}, regime=regime,
+                 kernel=rng.choice(["rbf", "matern15", "rq", "scale_rbf", "ard_rbf", "ard_rbf", "scale_ard_rbf", "ard_matern",
+                                    "scale_rbf+scale_matern", "poly"]),
+                 mean=rng.choice(["zero", "constant", "constant"]), lik=rng.choice(["gaussian", "gaussian", "fixed", "fixed+learned"]),
+                 d=rng.randint(2, 3))
+        d = c["d"]
+        if regime == "nonbatch-kernel":
+            # a shared (non-batch) kernel with a vector parameter and a prior on it inside a batched objective
+            c["kernel"] = rng.choice(["ard_rbf", "ard_matern", "scale_ard_rbf", "rq", "scale_rbf+scale_matern"])
+            if not any(p["target"] == "lengthscale" for p in c["priors"]):
+                c["priors"].append(dict(target="lengthscale", spec=gen_prior(rng), closure=rng.choice(["id", "square"]), by_name=rng.random() < 0.5))
+        if regime == "nonbatch-lik+mean":
+            c["lik"] = rng.choice(["gaussian", "fixed+learned"]); c["mean"] = "constant"
+            tgt = "noise" if c["lik"] == "gaussian" else "second_noise"
+            if not any(p["target"] == tgt for p in c["priors"]):
+                c["priors"].append(dict(target=tgt, spec=gen_prior(rng), closure="id", by_name=rng.random() < 0.5))
+        c["pattern"] = "k%s:m%s:l%s:x%s" % tuple("x".join(map(str, shapes[k])) or "-" for k in ("kernel", "mean", "lik", "data"))
     if family == "multitask":
         c.update(n=rng.randint(1, 3), tasks=2, rank=rng.choice([0, 1]), noise_rank=rng.choice([0, 1]),
                  kernel=rng.choice(["rbf", "matern25", "rq"]), mean="constant", lik="multitask", added=[],
@@ -337,9 +495,32 @@ def gen_case(rng, tier, family):
         c.update(kernel=rng.choice(["scale_rbf", "scale_matern"]), shared_handle=True, n=rng.randint(2, 3),
                  priors=[dict(target="lengthscale", spec=gen_prior(rng), closure="id", by_name=rng.random() < 0.5)]
                  + [p for p in c["priors"] if p["target"] in ("outputscale", "noise")])
+    if family == "samename":
+        # two components of the same kind, a prior on the same-named parameter of BOTH, registered under colliding names
+        kn = rng.choice(TWO_COMPONENT)
+        tgts = ["lengthscale", "lengthscale2"] + (["outputscale", "outputscale2"] if kn.startswith("scale") else [])
+        pri = []
+        for t in tgts:
+            if t.startswith("lengthscale") or rng.random() < 0.7:
+                spec = gen_prior(rng)
+                if t.startswith("outputscale") and spec["kind"] == "smoothedbox":
+                    spec = dict(kind="gamma", a=rng.randint(8, 32) / 8.0, b=rng.randint(4, 32) / 8.0)
+                pri.append(dict(target=t, spec=spec, closure="id", by_name=rng.random() < 0.5))
+        c.update(kernel=kn, n=rng.randint(2, 3), naming=rng.choice(["canonical", "same"]),
+                 priors=pri + [p for p in c["priors"] if p["target"] in ("noise", "constant", "second_noise")])
+    if family == "sharedprior":
+        # ONE prior object registered on two different modules (prior = GammaPrior(..); RBF(lengthscale_prior=prior) +
+        # Matern(lengthscale_prior=prior)): both parameters have a registered prior, both terms count
+        kn = rng.choice(TWO_COMPONENT)
+        spec = gen_prior(rng)
+        c.update(kernel=kn, n=rng.randint(2, 3), naming=rng.choice(NAMINGS),
+                 priors=[dict(target="lengthscale", spec=spec, closure="id", by_name=True),
+                         dict(target="lengthscale2", spec=spec, closure="id", by_name=True, share_with=0)]
+                 + [p for p in c["priors"] if p["target"] in ("noise", "constant")])
     if family == "grad":
         c.update(n=rng.randint(2, 4), lik=rng.choice(["gaussian", "fixed+learned"]),
-                 kernel=rng.choice(["rbf", "matern25", "rq", "scale_rbf", "ard_rbf", "rbf+linear"]), fast_log_prob=rng.random() < 0.5)
+                 kernel=rng.choice(["rbf", "matern25", "rq", "scale_rbf", "ard_rbf", "rbf+linear", "scale_rbf+scale_matern"]),
+                 fast_log_prob=rng.random() < 0.5)
     c["dyadic"] = family != "grad" and c["n"] * c.get("tasks", 1) >= 4
     c["X"] = sep_points(rng, c["n"], d)
     c["y"] = [rng.randint(-16, 16) / 8.0 for _ in range(c["n"])]
@@ -358,8 +539,16 @@ class MTGP(gpytorch.models.ExactGP):
         return gpytorch.distributions.MultitaskMultivariateNormal(self.mean_module(x), self.covar_module(x))
 
 
-BATCH_SHAPES = {"params+data": ((2,), (2,)), "params-only": ((2,), ()), "data-only": ((), (2,)),
-                "params(2,1)xdata(3)": ((2, 1), (3,)), "params(2)xdata(2,2)": ((2,), (2, 2))}
+def case_shapes(case):
+    """batch shapes the components are built with: kernel / mean / lik / data (+ optional y), and what they broadcast to"""
+    if case["family"] != "batch":
+        sh = dict(kernel=(), mean=(), lik=(), data=())
+    else:
+        sh = {k: tuple(v) for k, v in case["shapes"].items()}
+    sh["full"] = tuple(torch.broadcast_shapes(*sh.values()))
+    # batch shape of likelihood(model(X)) itself; the targets may carry more batch dims (several target vectors, one model)
+    sh["output"] = tuple(torch.broadcast_shapes(*[v for k, v in sh.items() if k not in ("y", "full")]))
+    return sh
 
 
 def build(case):
@@ -392,12 +581,12 @@ def build(case):
                 mod.register_prior("verif_prior_%d" % i, make_prior(p["spec"]),
                                    (lambda a, g: (lambda m: g(getattr(m, a))))(attr, CLOSURE_T[p["closure"]]))
         return model, lik, X, y
-    pshape, dshape = BATCH_SHAPES[case["pattern"]] if fam == "batch" else ((), ())
-    full = tuple(torch.broadcast_shapes(pshape, dshape))
-    kern = make_kernel(case["kernel"], d, rng, pshape)
+    sh = case_shapes(case)
+    dshape, full = sh["data"], sh["full"]
+    kern = make_kernel(case["kernel"], d, rng, sh["kernel"])
     if case.get("dyadic"):
         kern = DyadicKernel(kern)
-    mean = make_mean(case["mean"], d, rng, pshape)
+    mean = make_mean(case["mean"], d, rng, sh["mean"])
 
     def expand_pts(pts, shape):
         base = torch.tensor(pts)
@@ -409,7 +598,7 @@ def build(case):
         y = torch.tensor([[rng.randint(-16, 16) / 8.0 for _ in range(n)] for _ in range(max(1, torch.Size(full).numel()))]).reshape(*full, n)
     else:
         y = torch.tensor(case["y"])
-    lik = make_lik(case["lik"], n, rng, pshape, full)
+    lik = make_lik(case["lik"], n, rng, sh["lik"], full)
     added = []
     for a in case.get("added", []):
         val = torch.tensor(a["value"])
@@ -485,25 +674,36 @@ def loo_term(N, K, mu, S, y, priors, added):
                                                   C.qc_vec(added) if added else "(@nil Qc)")
 
 
-def plan_case(case, model=None, lik=None, X=None, y=None, which=("mll", "loo")):
-    """Coq terms for one case: per batch element an MLL and (single-output) a LOO term"""
+def plan_case(case, model=None, lik=None, X=None, y=None, which=("mll", "loo"), slots=True):
+    """Coq terms for one case: per batch element an MLL and (single-output) a LOO term.  slots=True: the prior values
+    of a batch element are assembled by the Coq model from the per-entry log densities (CMB / CLB); slots=False (members
+    of a SumMarginalLogLikelihood, multitask): one value per prior, summed here"""
     if model is None:
         model, lik, X, y = build(case)
     mt = case["family"] == "multitask"
     bshape, els = dense_inputs(model, lik, X, y, mt)
     case["_bshape"] = bshape
-    case["_pshape"] = BATCH_SHAPES[case["pattern"]][0] if case["family"] == "batch" else ()
+    case["_shapes"] = case_shapes(case)
     nb = len(els)
-    pri = expected_priors(model, lik, case, nb) if not mt else mt_priors(model, case, nb)
+    slots = slots and not mt
+    if slots:
+        bpt = slot_term(slot_priors(model, lik, case))
+    else:
+        pri = expected_priors(model, lik, case, nb) if not mt else mt_priors(model, case, nb)
     add = added_values(case, nb)
     terms = []
     for b, (K, mu, S, yy) in enumerate(els):
         N = len(mu)
-        pf = [float(v) for v in pri[b]]
+        pf = [] if slots else [float(v) for v in pri[b]]
+        idx = nat_list(unravel(b, bshape))
         if "mll" in which:
-            terms.append(("mll", b, "CM " + mll_term(N, K, mu, S, yy, pf, add[b], N)))
-        if "loo" in which and not mt and N >= 2:
-            terms.append(("loo", b, "CL " + loo_term(N, K, mu, S, yy, pf, add[b])))
+            t = mll_term(N, K, mu, S, yy, pf, add[b], N)
+            terms.append(("mll", b, "CMB %s %s %s" % (t, bpt, idx) if slots else "CM " + t))
+        # LeaveOneOutPseudoLikelihood reshapes the marginal's mean to the targets' shape: it is only defined when the targets
+        # have the batch shape of the model output (ExactMarginalLogLikelihood broadcasts); not compared otherwise
+        if "loo" in which and not mt and N >= 2 and case["_shapes"]["output"] == case["_shapes"]["full"]:
+            t = loo_term(N, K, mu, S, yy, pf, add[b])
+            terms.append(("loo", b, "CLB %s %s %s" % (t, bpt, idx) if slots else "CL " + t))
     return terms
 
 
@@ -566,7 +766,7 @@ def plan_sum(case):
     ms, _, _ = build_sum(case)
     parts = []
     for sub, (model, lik, X, y) in zip(case["members"], ms):
-        t = plan_case(sub, model, lik, X, y, which=("mll",))
+        t = plan_case(sub, model, lik, X, y, which=("mll",), slots=False)
         parts.append(t[0][2][3:])
     return "CS [" + "; ".join(parts) + "]"
 
@@ -606,16 +806,27 @@ def grad_plan(case):
 def run(out, ctx):
     tier, seed = ctx["tier"], ctx["seed"]
     rng = random.Random(seed * 104729 + 2)
-    nc = dict(single=56, batch=14, multitask=10, shared=4, sum=8, grad=6) if tier == "quick" else \
-        dict(single=500, batch=150, multitask=100, shared=30, sum=80, grad=40)
+    nc = dict(single=46, batch=15, multitask=8, shared=4, samename=8, sharedprior=3, sum=8, grad=6) if tier == "quick" else \
+        dict(single=500, batch=200, multitask=100, shared=30, samename=60, sharedprior=20, sum=80, grad=40)
     nc = {k: max(1, int(v * ctx.get("scale", 1.0))) for k, v in nc.items()}   # scale < 1 only in builder sensitivity runs
-    cases = [gen_case(rng, tier, fam) for fam in ("single", "batch", "multitask", "shared") for _ in range(nc[fam])]
+    cases = [gen_case(rng, tier, fam, regime=BATCH_REGIMES[j % len(BATCH_REGIMES)] if fam == "batch" else None)
+             for fam in ("single", "batch", "multitask", "shared", "samename", "sharedprior") for j in range(nc[fam])]
     sums = [gen_sum_case(rng, tier) for _ in range(nc["sum"])]
     grads = [gen_case(rng, tier, "grad") for _ in range(nc["grad"])]
     coq, owner = [], []
+    named_impl = {}
     for ci, c in enumerate(cases):
-        for kind, b, term in plan_case(c):
+        built = build(c)
+        for kind, b, term in plan_case(c, *built):
             coq.append(term); owner.append(("case", ci, kind, b))
+        if c["family"] != "multitask":
+            # which registrations Module.named_priors yields, against the model's traversal of the same module tree
+            tree, ids, names, pids = module_tree(built[0])
+            coq.append("CN " + tree); owner.append(("named", ci, "named", 0))
+            try:
+                named_impl[ci] = impl_named_priors(built[0], ids, names, pids)
+            except Exception as e:  # noqa: BLE001
+                named_impl[ci] = e
     for si, c in enumerate(sums):
         coq.append(plan_sum(c)); owner.append(("sum", si, "sum", 0))
     gplans = []
@@ -628,13 +839,15 @@ def run(out, ctx):
                     coq.append(term); owner.append(("grad", gi, kind, (pi, sgn)))
     # heavier cases first inside every shard is not needed: shard small so that 16 coqc run in parallel
     res = C.coq_run_cases(ctx.get("tag", "C02"), IMPORTS, RUN_DEF, coq, shard=max(4, len(coq) // 48))
-    out.rule = ("random exact-GP problems (n<=%d, d<=3; 10 kernels x 3 means x Gaussian / fixed-noise / fixed+learned noise; "
-                "Gamma / LogNormal / Normal / SmoothedBox priors on lengthscale, outputscale, noise, mean constant, ... through "
-                "identity / log / square closures; 0-2 added-loss terms registered on the model or on the kernel; "
-                "fast_computations.log_prob on/off), batched models (5 parameter/data broadcast patterns incl. a module batch shape shorter than the data batch shape, every batch element "
-                "against its own dense objective), Kronecker multitask (2 tasks, num_data = n*t), models that keep a second handle to the inner kernel (the SGPR example's base_covar_module pattern) with a prior on it, IndependentModelList + "
+    out.rule = ("random exact-GP problems (n<=%d, d<=3; 14 kernels incl. ARD and sums/products of two components of the same kind x 3 means x Gaussian / fixed-noise / fixed+learned noise; "
+                "Gamma / LogNormal / Normal / SmoothedBox priors on lengthscale, outputscale, noise, mean constant, ... (of either component) through "
+                "identity / log / square closures, registered under fresh names / the constructors' names (<param>_prior) / one common name; 0-2 added-loss terms registered on the model or on the kernel; "
+                "fast_computations.log_prob on/off), batched models (full batch shapes of 1-3 dims; kernel, mean, likelihood and data each with their OWN batch shape: any right-aligned sub-shape "
+                "with size-1 dims, incl. NON-batch modules with vector parameters (ARD) inside a batched objective and module batch shapes shorter than the data batch shape; every batch element "
+                "against its own dense objective), two same-kind kernel components with same-named priors on both (family samename), one prior object registered on two modules (family sharedprior), Kronecker multitask (2 tasks, num_data = n*t), models that keep a second handle to the inner kernel (the SGPR example's base_covar_module pattern) with a prior on it, IndependentModelList + "
                 "SumMarginalLogLikelihood (2-3 members).  ExactMarginalLogLikelihood and LeaveOneOutPseudoLikelihood are both "
-                "compared on every single-output case.  non-trivial = n>=2 and the objective has at least one prior or added "
+                "compared on every single-output case; Module.named_priors is compared exactly (as (module, name, prior object) triples) with the model's "
+                "traversal of the same module tree; which entries of a prior term count for which batch element is decided by the model (slot_sum).  non-trivial = n>=2 and the objective has at least one prior or added "
                 "term, or n>=3" % (5 if tier == "quick" else 7))
     out.extra["tolerances"] = {"objective (dense/cholesky)": TOL, "LOO mu/sigma2 exact code-vs-definition": 0,
                                 "gradient (autograd vs central differences of the Coq-evaluated objective, h=%g)" % GRAD_H:
@@ -655,10 +868,16 @@ def run(out, ctx):
             fam = case["family"]
             lab = "%s:%s" % (kind, fam)
             desc = dict(objective=kind, family=fam, n=case["n"], d=case["d"], kernel=case["kernel"], mean=case["mean"],
-                        lik=case["lik"], pattern=case.get("pattern"), npriors=len(case["priors"]), nadded=len(case["added"]),
+                        lik=case["lik"], pattern=case.get("pattern"), naming=case.get("naming"), npriors=len(case["priors"]), nadded=len(case["added"]),
                         fast_log_prob=case["fast_log_prob"], hseed=case["hseed"])
             out.case(desc, (case["n"] >= 2 and (case["priors"] or case["added"])) or case["n"] >= 3, label=lab)
             out.count("kernel=" + case["kernel"]); out.count("lik=" + case["lik"]); out.count("n=%d" % case["n"])
+            if case["priors"]:
+                out.count("naming=" + case.get("naming", "unique"))
+            if fam == "batch":
+                out.count("batch-regime=" + case["regime"]); out.count("batch-ndim=%d" % len(case["_shapes"]["full"]))
+                if any(not case["_shapes"][prior_component(case, p)] for p in case["priors"]) and case["_shapes"]["full"]:
+                    out.count("batch:prior-on-nonbatch-module")
             for p in case["priors"]:
                 out.count("prior=%s/%s" % (p["spec"]["kind"], p["closure"]))
             try:
@@ -676,12 +895,30 @@ def run(out, ctx):
                              "(contradicts c02_loo_is_leave_one_out)", dict(case=_clean(case)), no_input=True)
                 if not C.close(vals[b], d["value"], TOL, TOL):
                     key = "%s:%s%s%s" % (lab, "priors" if case["priors"] else "noprior", "+added" if case["added"] else "",
-                                         ":" + case["pattern"] if fam == "batch" else "")
+                                         ":" + case["regime"] if fam == "batch" else "")
                     if fam == "shared":
                         key = "%s:shared-module-handle:priors" % kind
+                    if fam == "sharedprior":
+                        key = "%s:shared-prior-object:priors" % kind
                     out.fail(key, "%s differs from its dense definition" % ("exact MLL" if kind == "mll" else "LOO pseudo-likelihood"),
                              dict(case=_clean(case), objective=kind, batch_element=b), impl=vals[b], model=float(d["value"]))
                     break
+    # ---- named_priors (discrete: exact)
+    for ci, case in enumerate(cases):
+        if ci not in named_impl:
+            continue
+        (_, _, r), = by[("named", ci)]
+        want = sorted(tuple(r[i:i + 3]) for i in range(0, len(r), 3))
+        fam = case["family"]
+        out.case(dict(objective="named_priors", family=fam, kernel=case["kernel"], naming=case.get("naming"), nregs=len(want),
+                      hseed=case["hseed"]), len(want) >= 2, label="named-priors:" + fam)
+        key = "named-priors:%s" % fam if fam != "sharedprior" else "named-priors:shared-prior-object:priors"
+        if isinstance(named_impl[ci], Exception):
+            out.fail("impl-exception:" + key, "named_priors() raised %r" % named_impl[ci], dict(case=_clean(case), objective="named"))
+        elif named_impl[ci] != want:
+            out.fail(key, "Module.named_priors does not yield every registration of every distinct module exactly once "
+                     "((module, name, prior object) numbers; -1 = not one of the registered)", dict(case=_clean(case), objective="named"),
+                     impl=[list(t) for t in named_impl[ci]], model=[list(t) for t in want])
     # ---- SumMarginalLogLikelihood
     for si, case in enumerate(sums):
         (_, _, r), = by[("sum", si)]
@@ -721,7 +958,9 @@ def run(out, ctx):
         "gradient of the objectives w.r.t. every raw hyper-parameter = gradient of the dense expression (autograd vs central "
         "differences of the Coq-evaluated objective; matrix calculus with log det is out of reach, DESIGN 9.3)",
         "agreement of torch/linear_operator Cholesky numerics with exact algebra",
-        "values of the prior log-densities and of the constraint transforms (decided by C17; recomputed here with mpmath)"]
+        "values of the prior log-densities and of the constraint transforms (decided by C17; recomputed here with mpmath)",
+        "completeness of named_priors when modules are shared (every registration of the first occurrence is yielded): "
+        "proved for sharing-free trees, never-twice proved for all trees, the shared-handle family is compared exactly"]
 
 
 def _clean(case):
@@ -740,6 +979,14 @@ def replay(path):
         m = float(decode("sum", r)["value"]); v = impl_sum(case)
         print("impl SumMLL", v); print("model     ", m)
         bad = not C.close(v, m, TOL, TOL)
+    elif kind == "named":
+        model = build(case)[0]
+        tree, ids, names, pids = module_tree(model)
+        r = C.coq_run_cases("C02_replay", IMPORTS, RUN_DEF, ["CN " + tree])[0]
+        want = sorted(tuple(r[i:i + 3]) for i in range(0, len(r), 3))
+        got = impl_named_priors(model, ids, names, pids)
+        print("module tree", tree); print("impl  named_priors (module, name, prior object)", got); print("model named_priors", want)
+        bad = got != want
     elif kind == "grad":
         gp = grad_plan(case)
         bad = False
